@@ -154,6 +154,26 @@ pub fn s_global() {
     emit();
 }
 
+/// local scopes (a closure scope, then a guard) opened while no global recorder exists; the global recorder is installed while the guard
+/// is alive; after the guard is gone an emission outside any scope reaches the global recorder
+pub fn s_global_late() {
+    unsafe {
+        metrics::with_local_recorder(rec(1), || {
+            mark_install(1);
+            emit(); // rec1
+        });
+        mark_scope_end(1);
+        let g = metrics::set_default_local_recorder(rec(2));
+        mark_install(2);
+        emit(); // rec2
+        let _ = metrics::set_global_recorder(G);
+        emit(); // rec2: the local recorder wins
+        drop(g);
+        mark_scope_end(2);
+    }
+    emit(); // global
+}
+
 // ------------------------------------------------------------------------------------------------ macro argument forms
 /// What each call site below spells, in call order: (operation, name, labels "k=v,k2=v2", level, target, unit, description).
 /// The same table is read by the check (expected delivery) and by the native replay.
